@@ -345,6 +345,11 @@ def _by_return_site(fr: Frame, fi, amap, names, mk):
     ev = fr.ev
     if not all(isinstance(amap[n], (Rat, Vec, Obj)) for n in names):
         return None
+    # only worth a trial evaluation when some exit returns a literal (None / a constant) and another one does not
+    rets = [n for n in ast.walk(fi.node) if isinstance(n, ast.Return)]
+    lits = [n for n in rets if n.value is None or isinstance(n.value, ast.Constant)]
+    if not lits or len(lits) == len(rets):
+        return None
     ck = (fi.qualname, tuple((n, repr(vkey(amap[n]))) for n in names))
     cache = ev.__dict__.setdefault("_site_cache", {}) if hasattr(ev, "__dict__") else {}
     if ck in cache:
